@@ -109,7 +109,11 @@ def _reject_cases():
         (dict(p=2, basis=['e', 'e1', 'e2', 'e21']), dict(p=2), True),
         (dict(p=2, basis=['e', 'e1', 'e2', 'e21']), dict(p=2, basis=['e', 'e2', 'e1', 'e12']), True),
         (dict(p=3, basis=['e', 'e1', 'e2', 'e3', 'e12', 'e31', 'e23', 'e123']), dict(p=3), True),
-        (dict(p=2, start_index=0), dict(p=2, start_index=1), None),     # start index only: not demanded
+        # start index only: NOT demanded.  The pinned suite itself (test_start_index) compares elements of Algebra(signature=[0,1,1],
+        # start_index=0) and ...start_index=1 and expects them equal: the start index relabels the generators by position and is not
+        # part of an algebra's identity (a round-6 report asked for rejection; trying it made that test fail)
+        (dict(p=2, start_index=0), dict(p=2, start_index=1), None),
+        (dict(p=2, start_index=3), dict(p=2, start_index=3), False),
         (dict(p=2, cse=False), dict(p=2), None),                          # options: may raise or not
     ]
     out = []
